@@ -60,7 +60,7 @@ def run_faults(args, out_path, stdin_path=None, case_timeout=20, mem_gb=2):
         err = abort_site(err_full)
         kind = last_start["ep"].split(":")[0]
         events.append({"op": "fault", "ep": last_start["ep"], "kind": {"trunc": "truncate", "sched": "schedule", "sink": "sinkfail",
-                       "mut": "mutate", "depth": "depth", "rand": "random"}.get(kind, kind),
+                       "mut": "mutate", "depth": "depth", "rand": "random", "struct": "structure"}.get(kind, kind),
                        "target": last_start["ep"].split(":")[1], "outcome": killed or "abort",
                        "site": err,
                        "whole_outcome": "", "whole_digest": "", "digest": ""})
@@ -129,6 +129,7 @@ def run(pid, tier, seed, replay=None):
             (["--kind", "schedule"], sched_path),
             (["--kind", "sinkfail", "--step", 2 if quick else 1], None),
             (["--kind", "mutate", "--step", 1, "--u32-step", 4 if quick else 1], None),
+            (["--kind", "structure"], None),
             (["--kind", "depth", "--depths", "10,100,1000" if quick else "10,100,1000,10000,100000"], None),
             (["--kind", "random", "--seed", seed, "--count", 3000 if quick else 200000], None)]
     restarts_total = 0
